@@ -370,7 +370,8 @@ def rule_SO(run: Run) -> RuleResult:
             # the error raised is the one caught from the (last) failing member
             if not tk.startswith("exc-of"):
                 ok_r = False
-        elif tk not in ("Const(None)",):
+        elif tk not in ("Const(None)",) and not tk.startswith("new:"):
+            # (no member failed on this path — there was none to try: `raise None`, or an error of the coalesce's own saying so)
             ok_r = False
     res.add("labrea.coalesce.Coalesce._delegate:raises the last member's error when none succeeds", ok_r, f, ln, f"raises {sorted(set(shapes))}", nec)
     # ---- CaseWhen.when: cases are tried in the order in which they were added — the new (condition, result) pair goes after
@@ -599,6 +600,8 @@ def rule_OP(run: Run) -> RuleResult:
                 ks_ = [a.key() for a in e.args]
                 while ks_ and ks_[0].startswith(("tuple(", "list(")) and ks_[0].endswith(")"):
                     ks_[0] = ks_[0][ks_[0].index("(") + 1:-1]      # the keys gathered into a tuple / list first: same keys, same order
+                if ks_ and ks_[0] == "Child(iterables)" and getattr(e.args[0], "mapping", False):
+                    ks_[0] = "dictkeys(Child(iterables))"      # walking a mapping walks its keys
                 if ks_ != ["dictkeys(Child(iterables))", f"elem({PROD})"]:
                     ok = False
     ok = ok and saw_zip
@@ -616,7 +619,9 @@ def _only_atomic_types(repo, module, tkey: str) -> bool:
     """True when the second argument of an isinstance test (given as a term key)
     names only types that deepcopy hands back unchanged."""
     def names_of(node) -> Optional[List[str]]:
-        if isinstance(node, ast.Tuple):
+        if isinstance(node, ast.Call) and isinstance(node.func, ast.Name) and node.func.id in ("frozenset", "set", "tuple") and len(node.args) == 1 and not node.keywords:
+            return names_of(node.args[0])
+        if isinstance(node, (ast.Tuple, ast.Set, ast.List)):
             out = []
             for e in node.elts:
                 r = names_of(e)
@@ -624,6 +629,11 @@ def _only_atomic_types(repo, module, tkey: str) -> bool:
                     return None
                 out += r
             return out
+        if isinstance(node, ast.Attribute) and isinstance(node.value, ast.Name):
+            # ``types.FunctionType`` under whatever name the module was imported
+            r_ = repo.resolve_name(module, node.value.id) if module is not None else None
+            if r_ and r_[0] == "external":
+                return [f"{r_[1]}.{node.attr}"]
         if isinstance(node, (ast.Name, ast.Attribute, ast.Call)):
             return [ast.unparse(node)]
         return None
@@ -728,6 +738,9 @@ def rule_EO(run: Run) -> RuleResult:
         for ck, pol in Frame.atoms(p.conds).items():
             if pol and ck.startswith("call:isinstance(Child(value),"):
                 atomic = atomic or _only_atomic_types(repo, va.module, ck[len("call:isinstance(Child(value),"):-1])
+            if pol and ck.startswith("cmp:In(call:type(Child(value)),"):
+                # ``type(value) in <a collection of such types>``: the exact type is one deepcopy hands back unchanged
+                atomic = atomic or _only_atomic_types(repo, va.module, ck[len("cmp:In(call:type(Child(value)),"):-1])
         if not (failed_copy or atomic):
             ok = False
             conds = [c[0] for c in p.conds]
@@ -888,12 +901,19 @@ def rule_EO(run: Run) -> RuleResult:
     tps = analyse_method(Ctx(repo), ce, "transform")
     ok = bool(tps)
     d = ""
+    PURE = ("callable", "isinstance", "type", "repr", "str", "hasattr")
+    n_ret_ = 0
     for p in tps:
-        evs = [e for e in p.events if e.kind in ("op", "call")]
+        evs = [e for e in p.events if e.kind in ("op", "call") and not (e.kind == "call" and e.text in PURE)]
         shape = [(e.kind, e.op or e.text, e.target.key() if e.target is not None else "", [a_.key() for a_ in e.args], e.opts.key() if e.opts is not None else None) for e in evs]
+        if p.status == "raise" and not any(s_[:2] == ("call", "<value>") for s_ in shape) and shape[:1] == [("op", "evaluate", "Child(callback)", [], ps_[1])] \
+                and not any(e.failed for e in p.events):
+            continue        # a check of what the callback evaluated to (not callable) that rejects it before anything is applied
+        n_ret_ += p.status == "ret"
         if p.status != "ret" or shape != [("op", "evaluate", "Child(callback)", [], ps_[1]), ("call", "<value>", "Val(evaluate,Child(callback))", [ps_[0]], None)]:
             ok = False
             d = f"{shape}"[:200]
+    ok = ok and n_ret_ > 0
     res.add("labrea.computation.CallbackEffect.transform:callback evaluated from options, applied to the value", ok, ce.module.relpath, fn.lineno, d or "self.callback(options)(value)", nec)
     ch = repo.cls("ChainedEffect")
     ps = [p for p in analyse_method(Ctx(repo), ch, "transform") if p.status == "ret"]
@@ -920,18 +940,38 @@ def rule_LK(run: Run) -> RuleResult:
         if fn is None:
             continue
         groups = []
+        lifted = {}         # (group, polarity of the test) -> some path of that side lifts the parameter's default (reaches Evaluatable.ensure)
         for p in analyse_function(Ctx(run.repo), ci.module, fn, cls=ci):
+            # (the parameter's default — ``kwargs.get(param.name, param.default)`` or ``param.default`` itself — reaches Evaluatable.ensure)
+            lifts = any(e.kind == "enter" and e.text == "ensure" and e.args and (".get()" in e.args[0].key() or "attr:default(" in e.args[0].key()) for e in p.events)
             for k, pol in Frame.atoms(p.conds).items():
                 if "attr:kind(" not in k or k.startswith("call:any("):
                     continue
                 named = frozenset(_re.findall(r"attr:(%s)\(" % "|".join(PARAM_KINDS), k))
-                if named and (k.startswith("cmp:Eq(") or k.startswith("cmp:In(")) and named not in groups:
-                    groups.append(named)
+                if named and (k.startswith("cmp:Eq(") or k.startswith("cmp:In(")):
+                    if named not in groups:
+                        groups.append(named)
+                    lifted[(named, pol)] = lifted.get((named, pol), False) or lifts
         if not groups:
             continue
         n += 1
-        # a test on the kind splits the parameters in two groups; one of them must consist of *args / **kwargs only (they carry no default)
-        bad = [sorted(g_) for g_ in groups if not (g_ <= {"VAR_KEYWORD", "VAR_POSITIONAL"} or (set(PARAM_KINDS) - g_) <= {"VAR_KEYWORD", "VAR_POSITIONAL"})]
+        # a test on the kind splits the parameters in two groups; a group whose defaults are not lifted (the loop skips it) must consist of
+        # *args / **kwargs only (they carry no default) — a group that is merely handed on differently (positional-only parameters passed
+        # positionally) is lifted on both sides of the test
+        NO_DEFAULT = {"VAR_KEYWORD", "VAR_POSITIONAL"}
+        bad = []
+        for g_ in groups:
+            skipped_kinds = set()
+            if not lifted.get((g_, True), False):
+                skipped_kinds |= set(g_)
+            if not lifted.get((g_, False), False):
+                skipped_kinds |= set(PARAM_KINDS) - set(g_)
+            both_sides_unknown = (g_, True) not in lifted and (g_, False) not in lifted
+            if both_sides_unknown:
+                skipped_kinds = set() if (g_ <= NO_DEFAULT or (set(PARAM_KINDS) - g_) <= NO_DEFAULT) else set(g_)
+            if not (skipped_kinds <= NO_DEFAULT or (set(PARAM_KINDS) - skipped_kinds) == set()):
+                if not (g_ <= NO_DEFAULT or (set(PARAM_KINDS) - g_) <= NO_DEFAULT):
+                    bad.append(sorted(g_))
         res.add(f"{ci.qualname}.lift:only *args/**kwargs parameters are set apart", not bad, ci.module.relpath, fn.lineno,
                 f"kind tests: {[sorted(g_) for g_ in groups]}" + ("" if not bad else f" — the test on {bad[0]} separates parameters that can carry a default (keyword-only ones) from the rest"), nec)
     if n == 0:
